@@ -543,6 +543,41 @@ fn mutate(rng: &mut StdRng, b: &[u8]) -> Vec<u8> {
     m
 }
 
+/// MICs that differ from the given one in structured ways a weak comparison could overlook: the same pattern XOR-ed
+/// into two, three or all four octets (differences cancel under XOR), octets rotated / reversed / swapped (same
+/// multiset), and +1 / -1 on two octets (same sum).
+fn mic_near_misses(mic: [u8; 4]) -> Vec<[u8; 4]> {
+    let mut v: Vec<[u8; 4]> = vec![];
+    for pat in [0x01u8, 0x80, 0xff, 0x5a] {
+        for mask in 1u8..16 {
+            if mask.count_ones() < 2 {
+                continue;
+            }
+            let mut m = mic;
+            for (i, x) in m.iter_mut().enumerate() {
+                if mask & (1 << i) != 0 {
+                    *x ^= pat;
+                }
+            }
+            v.push(m);
+        }
+    }
+    v.push([mic[1], mic[2], mic[3], mic[0]]);
+    v.push([mic[3], mic[0], mic[1], mic[2]]);
+    v.push([mic[3], mic[2], mic[1], mic[0]]);
+    v.push([mic[1], mic[0], mic[2], mic[3]]);
+    for (i, j) in [(0usize, 1usize), (0, 2), (0, 3), (1, 2), (1, 3), (2, 3)] {
+        let mut m = mic;
+        m[i] = m[i].wrapping_add(1);
+        m[j] = m[j].wrapping_sub(1);
+        v.push(m);
+    }
+    v.retain(|m| *m != mic);
+    v.sort();
+    v.dedup();
+    v
+}
+
 /// `vh codec_parse` (C02)
 pub fn codec_parse(a: &Args) {
     let mut out = Shards::create(&a.out, "parse", a.shards);
@@ -583,6 +618,19 @@ pub fn codec_parse(a: &Args) {
             }
             _ => {}
         }
+        // forged MICs that a folding comparison (XOR, sum, multiset) would take for the right one
+        if i % 16 == 5 && b.len() >= 12 {
+            let n = b.len();
+            let mic = [b[n - 4], b[n - 3], b[n - 2], b[n - 1]];
+            for m4 in mic_near_misses(mic) {
+                let mut f = b.clone();
+                f[n - 4..].copy_from_slice(&m4);
+                if let Some(e) = ev_mic(&f, &d.nwk, d.fcnt) {
+                    out.emit(&e);
+                }
+                out.emit(&ev_decode(&f, &d.nwk, app, d.fcnt));
+            }
+        }
         // mutations of the valid frame
         for _ in 0..(if a.thorough { 3 } else { 2 }) {
             let m = mutate(&mut rng, &b);
@@ -622,6 +670,25 @@ pub fn codec_parse(a: &Args) {
         let dn: [u8; 2] = rng.r#gen();
         out.emit(&ev_parse(&b));
         out.emit(&ev_ja_decode(&b, &d.key, dn));
+        if i % 8 == 1 {
+            // JoinAccepts whose MIC (inside the encryption) is a near miss: decrypt as the device does, replace
+            // the MIC, wrap again as a network server does
+            let c = DefaultNetworkCrypto::new(&AES128(d.key));
+            let mut plain = b.clone();
+            for block in plain[1..].chunks_exact_mut(16) {
+                lorawan::keys::Crypto::encrypt_block(&c, block);
+            }
+            let n = plain.len();
+            let mic = [plain[n - 4], plain[n - 3], plain[n - 2], plain[n - 1]];
+            for m4 in mic_near_misses(mic).into_iter().step_by(3) {
+                let mut f = plain.clone();
+                f[n - 4..].copy_from_slice(&m4);
+                for block in f[1..].chunks_exact_mut(16) {
+                    lorawan::keys::NetworkCrypto::decrypt_block(&c, block);
+                }
+                out.emit(&ev_ja_decode(&f, &d.key, dn));
+            }
+        }
         if i % 3 == 0 {
             out.emit(&ev_ja_decode(&b, &rnd16(&mut rng), dn));
             let m = mutate(&mut rng, &b);
